@@ -175,7 +175,9 @@ func hash(s string) uint32 {
 
 // padding of about n bytes made of blank lines, comment lines, spaces, tabs and CRLF
 func padding(n int, style int) string {
-	lines := []string{"\n", " \n", "\t\n", "# comment line\n", "   # indented comment\n", "\r\n", "#\n", "# 日本語のコメント\n", "  \t \n"}
+	lines := []string{"\n", " \n", "\t\n", "# comment line\n", "   # indented comment\n", "\r\n", "#\n", "# 日本語のコメント\n", "  \t \n",
+		// comments that look like code: a commented-out chain step, operators, quotes, brackets
+		"# |@{|x| x * 2}\n", "  # |.foo | bar || baz\n", "# \"unclosed ' ` ( [ {\n", "#|$+\n"}
 	var b strings.Builder
 	i := style
 	for b.Len() < n {
